@@ -90,11 +90,12 @@ struct Agg {
     t_near: BTreeMap<&'static str, u64>,
     // sessions
     s: SessionsRunStats,
-    s_grid_cells: u64,
     restart_queries: u64,
     restart_disagreements: u64,
+    restart_segments: u64,
+    restart_runs: u64,
     // violating runs of the selected property in the current block: (run index, choices, violation)
-    violating: Vec<(u64, Vec<u32>, Violation)>,
+    violating: Vec<(u64, Vec<u32>, Violation, Vec<u64>)>,
 }
 
 impl Agg {
@@ -202,6 +203,7 @@ fn add_sessions(a: &mut SessionsRunStats, s: &SessionsRunStats) {
     a.observations += s.observations;
     a.repeats_in_batch += s.repeats_in_batch;
     a.same_len_variants += s.same_len_variants;
+    a.cross_format_pairs += s.cross_format_pairs;
     a.skipped_panicking += s.skipped_panicking;
     for m in 0..32 {
         for c in 0..4 {
@@ -230,7 +232,7 @@ pub struct Opts {
     pub known: Option<String>,
     pub dump_digests: bool,
     pub no_evidence: bool,
-    pub restart_every: Option<u64>,
+    pub segments: Option<u64>,
     pub extra_json: Option<String>,
 }
 
@@ -246,7 +248,7 @@ fn parse_opts(args: &[String]) -> Result<Opts, String> {
         known: None,
         dump_digests: false,
         no_evidence: false,
-        restart_every: None,
+        segments: None,
         extra_json: None,
     };
     let mut i = 0;
@@ -265,7 +267,7 @@ fn parse_opts(args: &[String]) -> Result<Opts, String> {
             "--evidence" => o.evidence = Some(val()?),
             "--replay-dir" => o.replay_dir = val()?,
             "--known" => o.known = Some(val()?),
-            "--restart-every" => o.restart_every = Some(val()?.parse().map_err(|e| format!("--restart-every: {e}"))?),
+            "--segments" => o.segments = Some(val()?.parse().map_err(|e| format!("--segments: {e}"))?),
             "--extra-json" => o.extra_json = Some(val()?),
             "--dump-digests" => o.dump_digests = true,
             "--no-evidence" => o.no_evidence = true,
@@ -409,11 +411,283 @@ fn restart_check(queries: &[(Entry, usize, String, Outcome)], pick: u64, max: us
 }
 
 // ---------------------------------------------------------------------------------------------
+// process histories ("segments"): runs a..=b executed one after the other by ONE fresh
+// single-threaded process; after each run a sample of its queries is re-asked of fresh processes.
+// Deterministic by construction: the history of the process is exactly the run sequence.
+
+pub struct SegFound {
+    pub orig_from: u64,
+    pub from: u64,
+    pub to: u64,
+    pub message: String,
+}
+struct SegResult {
+    asked: u64,
+    runs: u64,
+    found: Option<SegFound>,
+}
+
+/// executes the history in THIS process (must be fresh); returns (runs, asked, first disagreement)
+fn run_segment(seed: u64, from: u64, to: u64, per_run: usize, only_last: bool) -> Result<(u64, u64, Option<(u64, String)>), String> {
+    let kind = SimKind::Sessions;
+    let mut asked = 0;
+    let mut runs = 0;
+    for i in from..=to {
+        let rs = run_seed(seed, kind.id(), i);
+        let mut ch = Choices::generate(rs);
+        let out = run_once(kind, &mut ch, false);
+        runs += 1;
+        if only_last && i != to {
+            continue;
+        }
+        if let Stats::S(s) = &out.stats {
+            let (n, v) = restart_check(&s.restart_queries, splitmix(rs), per_run)?;
+            asked += n;
+            if let Some(v) = v {
+                return Ok((runs, asked, Some((i, v.message))));
+            }
+        }
+    }
+    Ok((runs, asked, None))
+}
+
+pub fn cmd_segment(args: &[String]) -> u8 {
+    let mut seed = 1u64;
+    let (mut from, mut to, mut per_run, mut only_last) = (0u64, 0u64, 3usize, false);
+    let mut i = 0;
+    while i < args.len() {
+        let v = args.get(i + 1).cloned().unwrap_or_default();
+        match args[i].as_str() {
+            "--seed" => seed = v.parse().unwrap_or(1),
+            "--from" => from = v.parse().unwrap_or(0),
+            "--to" => to = v.parse().unwrap_or(0),
+            "--per-run" => per_run = v.parse().unwrap_or(3),
+            "--only-last" => {
+                only_last = true;
+                i += 1;
+                continue;
+            }
+            _ => {}
+        }
+        i += 2;
+    }
+    match run_segment(seed, from, to, per_run, only_last) {
+        Ok((runs, asked, None)) => {
+            println!("SEGMENT-DONE runs={runs} asked={asked}");
+            0
+        }
+        Ok((runs, asked, Some((i, msg)))) => {
+            println!("RESTART-DISAGREE run={i} {}", msg.replace('\n', " "));
+            println!("SEGMENT-DONE runs={runs} asked={asked}");
+            1
+        }
+        Err(e) => {
+            eprintln!("narsim segment: {e}");
+            2
+        }
+    }
+}
+
+fn spawn_segment(seed: u64, from: u64, to: u64, per_run: usize, only_last: bool) -> Result<(u64, u64, Option<(u64, String)>), String> {
+    let exe = std::env::current_exe().map_err(|e| e.to_string())?;
+    let mut cmd = std::process::Command::new(exe);
+    cmd.arg("segment").arg("--seed").arg(seed.to_string()).arg("--from").arg(from.to_string()).arg("--to").arg(to.to_string()).arg("--per-run").arg(per_run.to_string());
+    if only_last {
+        cmd.arg("--only-last");
+    }
+    let out = cmd.output().map_err(|e| e.to_string())?;
+    let text = String::from_utf8_lossy(&out.stdout).to_string();
+    let code = out.status.code().unwrap_or(2);
+    if code == 2 || code > 2 {
+        return Err(format!("segment process {from}..={to} failed: {}", String::from_utf8_lossy(&out.stderr)));
+    }
+    let mut runs = 0;
+    let mut asked = 0;
+    let mut dis = None;
+    for l in text.lines() {
+        if let Some(rest) = l.strip_prefix("RESTART-DISAGREE run=") {
+            let (i, msg) = rest.split_once(' ').unwrap_or((rest, ""));
+            dis = Some((i.parse().unwrap_or(to), msg.to_string()));
+        } else if let Some(rest) = l.strip_prefix("SEGMENT-DONE runs=") {
+            let (r, a) = rest.split_once(" asked=").unwrap_or((rest, "0"));
+            runs = r.parse().unwrap_or(0);
+            asked = a.parse().unwrap_or(0);
+        }
+    }
+    Ok((runs, asked, dis))
+}
+
+fn segments_phase(opts: &Opts, n_seg: u64, seg_len: u64, per_run: usize) -> Result<SegResult, String> {
+    let counter = AtomicU64::new(0);
+    let results: Vec<Result<(u64, (u64, u64, Option<(u64, String)>)), String>> = std::thread::scope(|sc| {
+        let hs: Vec<_> = (0..opts.workers)
+            .map(|_| {
+                let counter = &counter;
+                sc.spawn(move || {
+                    let mut out = vec![];
+                    loop {
+                        let sidx = counter.fetch_add(1, Ordering::Relaxed);
+                        if sidx >= n_seg {
+                            break;
+                        }
+                        let from = sidx * seg_len;
+                        let to = from + seg_len - 1;
+                        out.push(spawn_segment(opts.seed, from, to, per_run, false).map(|r| (sidx, r)));
+                    }
+                    out
+                })
+            })
+            .collect();
+        hs.into_iter().flat_map(|h| h.join().expect("segment thread")).collect()
+    });
+    let mut asked = 0;
+    let mut runs = 0;
+    let mut first: Option<(u64, u64, String)> = None; // (segment, run, message)
+    for r in results {
+        let (sidx, (r_runs, r_asked, dis)) = r?;
+        asked += r_asked;
+        runs += r_runs;
+        if let Some((i, msg)) = dis {
+            if first.as_ref().map_or(true, |f| sidx < f.0) {
+                first = Some((sidx, i, msg));
+            }
+        }
+    }
+    let Some((sidx, to, msg)) = first else {
+        return Ok(SegResult { asked, runs, found: None });
+    };
+    // minimise the history: the shortest suffix (by doubling) that still disagrees after run `to`
+    let orig_from = sidx * seg_len;
+    let mut best = (orig_from, msg);
+    let mut k = 0u64;
+    loop {
+        let from = to.saturating_sub(k).max(orig_from);
+        if from == orig_from {
+            break;
+        }
+        let (_, a, dis) = spawn_segment(opts.seed, from, to, per_run, true)?;
+        asked += a;
+        if let Some((_, m)) = dis {
+            best = (from, m);
+            break;
+        }
+        k = if k == 0 { 1 } else { k * 2 };
+    }
+    Ok(SegResult { asked, runs, found: Some(SegFound { orig_from, from: best.0, to, message: best.1 }) })
+}
+
+// ---------------------------------------------------------------------------------------------
+// thread histories: a run that fails only after other runs on the same thread
+
+pub struct HistFound {
+    pub runs: Vec<u64>,
+    pub original_len: usize,
+    pub kind: String,
+    pub message: String,
+}
+
+/// executes the listed runs one after the other on THIS thread; reports a violation of `prop`
+/// in the LAST run
+fn run_history(kind: SimKind, prop: &str, seed: u64, runs: &[u64]) -> Option<Violation> {
+    let mut last = None;
+    for (n, i) in runs.iter().enumerate() {
+        let mut ch = Choices::generate(run_seed(seed, kind.id(), *i));
+        let out = run_once(kind, &mut ch, false);
+        if n + 1 == runs.len() {
+            last = out.violations.into_iter().find(|v| v.prop == prop);
+        }
+    }
+    last
+}
+
+pub fn cmd_history(args: &[String]) -> u8 {
+    let mut prop = String::new();
+    let mut seed = 1u64;
+    let mut runs: Vec<u64> = vec![];
+    let mut i = 0;
+    while i + 1 < args.len() {
+        match args[i].as_str() {
+            "--prop" => prop = args[i + 1].clone(),
+            "--seed" => seed = args[i + 1].parse().unwrap_or(1),
+            "--runs" => runs = args[i + 1].split(',').filter_map(|x| x.parse().ok()).collect(),
+            _ => {}
+        }
+        i += 2;
+    }
+    let Some(kind) = SimKind::of_prop(&prop) else { return 2 };
+    match run_history(kind, &prop, seed, &runs) {
+        Some(v) => {
+            println!("HISTORY-VIOLATION kind={} {}", v.kind, v.message.replace('\n', " "));
+            1
+        }
+        None => {
+            println!("HISTORY-OK");
+            0
+        }
+    }
+}
+
+fn spawn_history(opts: &Opts, prop: &str, runs: &[u64]) -> Result<Option<(String, String)>, String> {
+    let exe = std::env::current_exe().map_err(|e| e.to_string())?;
+    let list = runs.iter().map(|r| r.to_string()).collect::<Vec<_>>().join(",");
+    let out = std::process::Command::new(exe).arg("history").arg("--prop").arg(prop).arg("--seed").arg(opts.seed.to_string()).arg("--runs").arg(list).output().map_err(|e| e.to_string())?;
+    let text = String::from_utf8_lossy(&out.stdout);
+    for l in text.lines() {
+        if let Some(rest) = l.strip_prefix("HISTORY-VIOLATION kind=") {
+            let (k, m) = rest.split_once(' ').unwrap_or((rest, ""));
+            return Ok(Some((k.to_string(), m.to_string())));
+        }
+    }
+    match out.status.code() {
+        Some(0) | Some(1) => Ok(None),
+        _ => Err(format!("history process failed: {}", String::from_utf8_lossy(&out.stderr))),
+    }
+}
+
+/// `hist` = the runs the worker thread executed, the failing one last
+fn history_reproduce(opts: &Opts, prop: &str, hist: &[u64]) -> Result<Option<HistFound>, String> {
+    let Some((mut kind, mut message)) = spawn_history(opts, prop, hist)? else { return Ok(None) };
+    let original_len = hist.len();
+    let last = *hist.last().unwrap();
+    let mut prefix: Vec<u64> = hist[..hist.len() - 1].to_vec();
+    // delta debugging over the prefix (each attempt is a fresh process)
+    let mut attempts = 0;
+    let mut chunk = prefix.len().div_ceil(2).max(1);
+    while !prefix.is_empty() && attempts < 60 {
+        let mut shrunk = false;
+        let mut at = 0;
+        while at < prefix.len() && attempts < 60 {
+            let end = (at + chunk).min(prefix.len());
+            let mut cand: Vec<u64> = prefix[..at].to_vec();
+            cand.extend_from_slice(&prefix[end..]);
+            cand.push(last);
+            attempts += 1;
+            if let Some((k, m)) = spawn_history(opts, prop, &cand)? {
+                cand.pop();
+                prefix = cand;
+                kind = k;
+                message = m;
+                shrunk = true;
+            } else {
+                at = end;
+            }
+        }
+        if chunk == 1 && !shrunk {
+            break;
+        }
+        chunk = (chunk / 2).max(1);
+    }
+    let mut runs = prefix;
+    runs.push(last);
+    Ok(Some(HistFound { runs, original_len, kind, message }))
+}
+
+// ---------------------------------------------------------------------------------------------
 // the batch
 
 fn default_runs(kind: SimKind, tier: &str) -> u64 {
     match (kind, tier) {
-        (SimKind::Terms, "quick") => 200_000,
+        (SimKind::Terms, "quick") => 120_000,
         (SimKind::Terms, _) => 4_000_000,
         (SimKind::Sessions, "quick") => 60_000,
         (SimKind::Sessions, _) => 1_500_000,
@@ -439,8 +713,59 @@ pub fn cmd_run(args: &[String]) -> u8 {
 
 struct Found {
     run_index: u64,
-    choices: Vec<u32>,
+    original_len: usize,
+    used_len: usize,
+    executions: u64,
     violation: Violation,
+    path: String,
+}
+
+/// one run on a fresh thread: thread-local state of the library under test starts clean
+fn run_fresh_thread(kind: SimKind, data: &[u32], verbose: bool) -> RunOut {
+    std::thread::scope(|sc| {
+        sc.spawn(|| {
+            let mut ch = Choices::replay(data.to_vec());
+            run_once(kind, &mut ch, verbose)
+        })
+        .join()
+        .expect("simulation thread")
+    })
+}
+
+#[allow(clippy::too_many_arguments)]
+fn write_run_replay(path: &str, opts: &Opts, kind: SimKind, prop: &str, i: u64, v: &Violation, data: &[u32], original_len: usize, executions: u64, narrative: &[String]) -> Result<(), String> {
+    let j = J::obj(vec![
+        ("property", J::s(prop)),
+        ("kind", J::s(v.kind.clone())),
+        ("sim", J::s(kind.name())),
+        ("master_seed", J::u(opts.seed)),
+        ("run_index", J::u(i)),
+        ("run_seed", J::s(format!("{:#x}", run_seed(opts.seed, kind.id(), i)))),
+        ("hooked_build", J::Bool(HOOKED)),
+        ("message", J::s(v.message.clone())),
+        ("choices", J::Arr(data.iter().map(|c| J::u(*c as u64)).collect())),
+        ("original_choices_len", J::u(original_len as u64)),
+        ("minimised_choices_len", J::u(data.len() as u64)),
+        ("minimise_executions", J::u(executions)),
+        ("narrative", J::strs(narrative.iter().cloned())),
+        ("replay_cmd", J::s(format!("./check {prop} --replay {path}"))),
+    ]);
+    std::fs::write(path, j.to_string_pretty()).map_err(|e| format!("{path}: {e}"))
+}
+
+/// does `narsim replay <path>` report the violation in a fresh process? (up to `attempts` tries:
+/// the simulator is deterministic, but a tree under test may draw OS randomness)
+fn child_replays(path: &str, attempts: u32) -> Result<bool, String> {
+    let exe = std::env::current_exe().map_err(|e| e.to_string())?;
+    for _ in 0..attempts {
+        let out = std::process::Command::new(&exe).arg("replay").arg(path).output().map_err(|e| e.to_string())?;
+        match out.status.code() {
+            Some(1) => return Ok(true),
+            Some(0) => {}
+            c => return Err(format!("replay process for {path} exited with {c:?}: {}", String::from_utf8_lossy(&out.stderr))),
+        }
+    }
+    Ok(false)
 }
 
 fn run_batch(opts: &Opts) -> Result<u8, String> {
@@ -451,12 +776,6 @@ fn run_batch(opts: &Opts) -> Result<u8, String> {
     let t0 = Instant::now();
     println!("narsim: property={prop} sim={} tier={} VERIF_SEED={} runs={total} workers={} hooked_build={HOOKED}", kind.name(), opts.tier, opts.seed, opts.workers);
 
-    let restart_every = opts.restart_every.unwrap_or(match (kind, opts.tier.as_str()) {
-        (SimKind::Sessions, "quick") => 100,
-        (SimKind::Sessions, _) => 400,
-        _ => 0,
-    });
-
     let mut agg = Agg::default();
     agg.layout_sample_shift = if total > 500_000 { 4 } else { 0 };
     let shift = agg.layout_sample_shift;
@@ -464,11 +783,14 @@ fn run_batch(opts: &Opts) -> Result<u8, String> {
     let mut start = 0u64;
     let mut known_lines: Vec<String> = vec![];
     let mut known_matched = 0u64;
-    let mut found: Option<(Found, crate::minimise::MinimiseResult, Vec<String>)> = None;
+    let mut found: Option<Found> = None;
     let mut digests: Vec<(u64, u64)> = vec![];
     let mut harness_err: Option<String> = None;
+    let mut hist_found: Option<HistFound> = None;
+    let mut unreproduced = 0u64;
+    let mut unreproduced_note: Option<String> = None;
 
-    while start < total && found.is_none() && known_matched < 200 {
+    while start < total && found.is_none() && hist_found.is_none() && known_matched < 200 {
         let end = (start + block).min(total);
         let counter = AtomicU64::new(start);
         let parts: Vec<(Agg, Vec<(u64, u64)>, Option<String>)> = std::thread::scope(|sc| {
@@ -479,30 +801,18 @@ fn run_batch(opts: &Opts) -> Result<u8, String> {
                         let mut a = Agg::default();
                         a.layout_sample_shift = shift;
                         let mut dg = vec![];
-                        let mut err = None;
+                        let err: Option<String> = None;
+                        // the runs this worker thread executed so far (its thread-local history)
+                        let mut hist: Vec<u64> = vec![];
                         loop {
                             let i = counter.fetch_add(1, Ordering::Relaxed);
                             if i >= end {
                                 break;
                             }
+                            hist.push(i);
                             let seed = run_seed(opts.seed, kind.id(), i);
                             let mut ch = Choices::generate(seed);
-                            let mut out = run_once(kind, &mut ch, false);
-                            // restart oracle on a sample of runs
-                            if restart_every > 0 && i % restart_every == 0 {
-                                if let Stats::S(s) = &out.stats {
-                                    match restart_check(&s.restart_queries, splitmix(seed), 3) {
-                                        Ok((asked, v)) => {
-                                            a.restart_queries += asked;
-                                            if let Some(v) = v {
-                                                a.restart_disagreements += 1;
-                                                out.violations.push(v);
-                                            }
-                                        }
-                                        Err(e) => err = Some(e),
-                                    }
-                                }
-                            }
+                            let out = run_once(kind, &mut ch, false);
                             let data = ch.into_data();
                             a.absorb(&out, i, data.len());
                             if opts.dump_digests {
@@ -520,7 +830,7 @@ fn run_batch(opts: &Opts) -> Result<u8, String> {
                             }
                             if let Some(v) = mine {
                                 if a.violating.len() < 64 {
-                                    a.violating.push((i, data, v));
+                                    a.violating.push((i, data, v, hist.clone()));
                                 }
                             }
                         }
@@ -538,43 +848,80 @@ fn run_batch(opts: &Opts) -> Result<u8, String> {
             }
         }
         if let Some(e) = &harness_err {
-            return Err(format!("restart oracle: {e}"));
+            return Err(e.clone());
         }
         // violations of this block, lowest run index first (deterministic choice)
         let mut v = std::mem::take(&mut agg.violating);
         v.sort_by_key(|x| x.0);
-        for (i, data, viol) in v {
-            // minimise: keep a change only if the same (property, kind) still fires
-            let is_restart = viol.kind == "outcome-differs-from-fresh-process";
+        for (i, data, viol, hist) in v {
             let kind_s = viol.kind.clone();
-            let min = if is_restart {
-                crate::minimise::MinimiseResult { original_len: data.len(), data: data.clone(), executions: 0 }
-            } else {
-                minimise(
-                    data.clone(),
-                    |cand| {
-                        let mut ch = Choices::replay(cand.to_vec());
-                        let out = run_once(kind, &mut ch, false);
+            std::fs::create_dir_all(&opts.replay_dir).map_err(|e| format!("{}: {e}", opts.replay_dir))?;
+            let path = format!("{}/{}-seed{}-run{}.json", opts.replay_dir, prop, opts.seed, i);
+            // (A) is the violation a function of the run's own decisions? Ask a fresh process.
+            let narrative0 = run_fresh_thread(kind, &data, true).log.lines;
+            write_run_replay(&path, opts, kind, prop, i, &viol, &data, data.len(), 0, &narrative0)?;
+            if !child_replays(&path, 3)? {
+                let _ = std::fs::remove_file(&path);
+                // (B) the outcome depended on what the worker thread did before: replay that
+                // history in a fresh single-threaded process, then minimise the history
+                match history_reproduce(opts, prop, &hist)? {
+                    Some(hf) => {
+                        let hit = known.iter().find(|k| k.status == "open" && k.property == prop && k.kind == hf.kind && (k.needle.is_empty() || hf.message.contains(&k.needle)));
+                        if let Some(k) = hit {
+                            known_matched += 1;
+                            let line = format!("KNOWN-FINDING: property={prop} {}", k.what);
+                            if !known_lines.contains(&line) {
+                                println!("{line}");
+                                known_lines.push(line);
+                            }
+                            continue;
+                        }
+                        hist_found = Some(hf);
+                        break;
+                    }
+                    None => {
+                        unreproduced += 1;
+                        if unreproduced_note.is_none() {
+                            unreproduced_note = Some(format!("run {i}: {} {}: {}", viol.prop, viol.kind, viol.message));
+                        }
+                        continue;
+                    }
+                }
+            }
+            // minimise: a candidate is kept only if the same (property, kind) fires twice in a row,
+            // each time on a fresh thread (so that thread-local leftovers of one candidate cannot
+            // decide the next)
+            let min = minimise(
+                data.clone(),
+                |cand| {
+                    (0..2).all(|_| {
+                        let out = run_fresh_thread(kind, cand, false);
                         out.violations.iter().any(|x| x.prop == prop && x.kind == kind_s)
-                    },
-                    4000,
-                )
-            };
-            // narrative + final message of the minimised run
-            let mut ch = Choices::replay(min.data.clone());
-            let out = run_once(kind, &mut ch, true);
-            let final_v = if is_restart {
-                Some(viol.clone())
-            } else {
-                out.violations.iter().find(|x| x.prop == prop && x.kind == kind_s).cloned()
-            };
-            let Some(final_v) = final_v else {
-                return Err(format!("minimised run {i} no longer reproduces {prop}/{kind_s} (non-determinism in the harness)"));
-            };
+                    })
+                },
+                3000,
+            );
+            let out = run_fresh_thread(kind, &min.data, true);
+            let mut final_v = out.violations.iter().find(|x| x.prop == prop && x.kind == kind_s).or_else(|| out.violations.iter().find(|x| x.prop == prop)).cloned();
+            let mut used = min.data.clone();
+            let mut narrative = out.log.lines;
+            if let Some(fv) = &final_v {
+                write_run_replay(&path, opts, kind, prop, i, fv, &used, data.len(), min.executions, &narrative)?;
+            }
+            if final_v.is_none() || !child_replays(&path, 3)? {
+                // the minimised sequence is not robust (the tree under test behaves
+                // non-deterministically): report the original sequence instead
+                used = data.clone();
+                narrative = narrative0;
+                final_v = Some(viol.clone());
+                write_run_replay(&path, opts, kind, prop, i, &viol, &used, data.len(), min.executions, &narrative)?;
+            }
+            let final_v = final_v.unwrap();
             // known finding?
             let hit = known.iter().find(|k| k.status == "open" && k.property == prop && k.kind == final_v.kind && (k.needle.is_empty() || final_v.message.contains(&k.needle)));
             if let Some(k) = hit {
                 known_matched += 1;
+                let _ = std::fs::remove_file(&path);
                 let line = format!("KNOWN-FINDING: property={prop} {}", k.what);
                 if !known_lines.contains(&line) {
                     println!("{line}");
@@ -582,40 +929,100 @@ fn run_batch(opts: &Opts) -> Result<u8, String> {
                 }
                 continue;
             }
-            found = Some((Found { run_index: i, choices: data, violation: final_v }, min, out.log.lines));
+            found = Some(Found { run_index: i, original_len: data.len(), used_len: used.len(), executions: min.executions, violation: final_v, path });
             break;
         }
         start = end;
+    }
+
+    // ---- restart oracle (C08): process histories replayed in fresh processes ----
+    let mut seg_found: Option<SegFound> = None;
+    if kind == SimKind::Sessions && found.is_none() && hist_found.is_none() && !opts.dump_digests {
+        let (n_seg, seg_len) = match (opts.segments, opts.tier.as_str()) {
+            (Some(n), _) => (n, 80),
+            (None, "quick") => (opts.workers as u64 * 2, 80),
+            (None, _) => (opts.workers as u64 * 24, 120),
+        };
+        let r = segments_phase(opts, n_seg, seg_len, 2)?;
+        agg.restart_queries = r.asked;
+        agg.restart_segments = n_seg;
+        agg.restart_runs = r.runs;
+        if let Some(f) = r.found {
+            let hit = known.iter().find(|k| k.status == "open" && k.property == prop && k.kind == "outcome-differs-from-fresh-process" && (k.needle.is_empty() || f.message.contains(&k.needle)));
+            if let Some(k) = hit {
+                let line = format!("KNOWN-FINDING: property={prop} {}", k.what);
+                println!("{line}");
+                known_lines.push(line);
+            } else {
+                agg.restart_disagreements = 1;
+                seg_found = Some(f);
+            }
+        }
     }
 
     let wall = t0.elapsed().as_secs_f64();
     let mut exit = 0u8;
     let mut violations_n = 0;
     let mut replay_path = String::new();
-    if let Some((f, min, narrative)) = &found {
+    if let Some(h) = &hist_found {
         violations_n = 1;
         exit = 1;
         std::fs::create_dir_all(&opts.replay_dir).map_err(|e| format!("{}: {e}", opts.replay_dir))?;
-        replay_path = format!("{}/{}-seed{}-run{}.json", opts.replay_dir, prop, opts.seed, f.run_index);
+        let last = *h.runs.last().unwrap_or(&0);
+        replay_path = format!("{}/{}-seed{}-threadhistory-run{}.json", opts.replay_dir, prop, opts.seed, last);
         let j = J::obj(vec![
             ("property", J::s(prop)),
-            ("kind", J::s(f.violation.kind.clone())),
+            ("kind", J::s(h.kind.clone())),
             ("sim", J::s(kind.name())),
             ("master_seed", J::u(opts.seed)),
-            ("run_index", J::u(f.run_index)),
-            ("run_seed", J::s(format!("{:#x}", run_seed(opts.seed, kind.id(), f.run_index)))),
             ("hooked_build", J::Bool(HOOKED)),
-            ("message", J::s(f.violation.message.clone())),
-            ("choices", J::Arr(min.data.iter().map(|c| J::u(*c as u64)).collect())),
-            ("original_choices_len", J::u(f.choices.len() as u64)),
-            ("minimised_choices_len", J::u(min.data.len() as u64)),
-            ("minimise_executions", J::u(min.executions)),
-            ("narrative", J::strs(narrative.iter().cloned())),
+            ("message", J::s(h.message.clone())),
+            ("history_runs", J::Arr(h.runs.iter().map(|r| J::u(*r)).collect())),
+            ("original_history_len", J::u(h.original_len as u64)),
+            ("narrative", J::strs([
+                format!("a fresh single-threaded process executes simulated runs {:?} (seeds derived from VERIF_SEED={}) one after the other on one thread", h.runs, opts.seed),
+                format!("the last run ({last}) does not fail on its own; it fails after this history (state left behind on the thread / in the process)"),
+                h.message.clone(),
+            ])),
             ("replay_cmd", J::s(format!("./check {prop} --replay {replay_path}"))),
         ]);
         std::fs::write(&replay_path, j.to_string_pretty()).map_err(|e| format!("{replay_path}: {e}"))?;
+        println!("violation in run {last} after thread history {:?} (kind {}): {}", h.runs, h.kind, h.message);
+        println!("minimised history {} -> {} runs", h.original_len, h.runs.len());
+        println!("VIOLATION property={prop} replay={replay_path}");
+    }
+    if let Some(f) = &seg_found {
+        violations_n = 1;
+        exit = 1;
+        std::fs::create_dir_all(&opts.replay_dir).map_err(|e| format!("{}: {e}", opts.replay_dir))?;
+        replay_path = format!("{}/{}-seed{}-history{}-{}.json", opts.replay_dir, prop, opts.seed, f.from, f.to);
+        let j = J::obj(vec![
+            ("property", J::s(prop)),
+            ("kind", J::s("outcome-differs-from-fresh-process")),
+            ("sim", J::s(kind.name())),
+            ("master_seed", J::u(opts.seed)),
+            ("hooked_build", J::Bool(HOOKED)),
+            ("message", J::s(f.message.clone())),
+            ("segment", J::obj(vec![("seed", J::u(opts.seed)), ("from", J::u(f.from)), ("to", J::u(f.to)), ("per_run", J::u(2))])),
+            ("original_history", J::s(format!("runs {}..={} in one fresh single-threaded process", f.orig_from, f.to))),
+            ("narrative", J::strs([
+                format!("a fresh single-threaded process executes simulated runs {}..={} (seeds derived from VERIF_SEED={}) one after the other", f.from, f.to, opts.seed),
+                format!("after run {} it re-asks a sample of that run's queries of fresh OS processes (one query per process)", f.to),
+                f.message.clone(),
+            ])),
+            ("replay_cmd", J::s(format!("./check {prop} --replay {replay_path}"))),
+        ]);
+        std::fs::write(&replay_path, j.to_string_pretty()).map_err(|e| format!("{replay_path}: {e}"))?;
+        println!("violation after process history of runs {}..={} (kind outcome-differs-from-fresh-process): {}", f.from, f.to, f.message);
+        println!("minimised history {}..={} -> {}..={}", f.orig_from, f.to, f.from, f.to);
+        println!("VIOLATION property={prop} replay={replay_path}");
+    }
+    if let Some(f) = &found {
+        violations_n = 1;
+        exit = 1;
+        replay_path = f.path.clone();
         println!("violation in run {} (kind {}): {}", f.run_index, f.violation.kind, f.violation.message);
-        println!("minimised {} -> {} decisions in {} executions", f.choices.len(), min.data.len(), min.executions);
+        println!("minimised {} -> {} decisions in {} executions; the replay file reproduces in a fresh process", f.original_len, f.used_len, f.executions);
         println!("VIOLATION property={prop} replay={replay_path}");
     }
 
@@ -651,6 +1058,12 @@ fn run_batch(opts: &Opts) -> Result<u8, String> {
         known_lines.len(),
         agg.aborted
     );
+    if exit == 0 && unreproduced > 0 {
+        return Err(format!(
+            "{unreproduced} run(s) showed a violation that neither the run alone nor its thread history reproduces in a fresh process (state shared across threads?); first: {}",
+            unreproduced_note.unwrap_or_default()
+        ));
+    }
     if agg.runs > 100 && agg.aborted * 20 > agg.runs {
         return Err(format!("{} of {} runs aborted while building their workload", agg.aborted, agg.runs));
     }
@@ -764,6 +1177,8 @@ fn evidence_json(opts: &Opts, kind: SimKind, prop: &'static str, agg: &Agg, wall
             cov.push(("simulated_time", J::s(format!("the system has no clock; logical steps = {} operations, {} session inputs, {} observations", s.ops, s.batch_items, s.observations))));
             let mut fc: Vec<(String, J)> = (0..FAULT_NAMES.len()).map(|i| (FAULT_NAMES[i].to_string(), J::u(s.faults[i]))).collect();
             fc.push(("repeat_request_in_session".into(), J::u(s.repeats_in_batch)));
+            fc.push(("same_input_other_format_back_to_back".into(), J::u(s.cross_format_pairs)));
+            fc.push(("same_length_variant_of_previous_request".into(), J::u(s.same_len_variants)));
             fc.push(("interleaved_operation_inside_session".into(), J::u(s.interleaved_steps)));
             fc.push(("nested_session".into(), J::u(s.nested_batches)));
             cov.push(("fault_counts", J::Obj(fc)));
@@ -789,6 +1204,8 @@ fn evidence_json(opts: &Opts, kind: SimKind, prop: &'static str, agg: &Agg, wall
                     ("rows", J::Obj(grid)),
                 ]),
             ));
+            cov.push(("restart_oracle_process_histories", J::u(agg.restart_segments)));
+            cov.push(("restart_oracle_runs_in_histories", J::u(agg.restart_runs)));
             cov.push(("restart_oracle_queries", J::u(agg.restart_queries)));
             cov.push(("restart_oracle_disagreements", J::u(agg.restart_disagreements)));
             cov.push((
@@ -857,24 +1274,54 @@ pub fn cmd_replay(args: &[String]) -> u8 {
         return 2;
     };
     let prop = prop_static(prop);
+    if let Some(h) = j.get("history_runs").and_then(|v| v.as_arr()) {
+        let runs: Vec<u64> = h.iter().filter_map(|x| x.as_u64()).collect();
+        let seed = j.get("master_seed").and_then(|v| v.as_u64()).unwrap_or(1);
+        println!("  replaying thread history: runs {runs:?} under VERIF_SEED={seed} on this fresh thread");
+        return match run_history(kind, prop, seed, &runs) {
+            Some(v) => {
+                println!("replayed {path}: {} {}: {}", v.prop, v.kind, v.message);
+                println!("VIOLATION property={prop} replay={path}");
+                1
+            }
+            None => {
+                println!("replayed {path}: no violation of {prop} on this tree (hooked_build={HOOKED})");
+                0
+            }
+        };
+    }
+    if let Some(seg) = j.get("segment") {
+        let g = |k: &str| seg.get(k).and_then(|v| v.as_u64()).unwrap_or(0);
+        println!("  replaying process history: runs {}..={} under VERIF_SEED={} in this fresh process", g("from"), g("to"), g("seed"));
+        return match run_segment(g("seed"), g("from"), g("to"), g("per_run").max(1) as usize, true) {
+            Ok((_, _, Some((i, msg)))) => {
+                println!("replayed {path}: after run {i}: {msg}");
+                println!("VIOLATION property={prop} replay={path}");
+                1
+            }
+            Ok(_) => {
+                println!("replayed {path}: no violation of {prop} on this tree (hooked_build={HOOKED})");
+                0
+            }
+            Err(e) => {
+                eprintln!("narsim: {e}");
+                2
+            }
+        };
+    }
     let Some(choices) = j.get("choices").and_then(|v| v.as_arr()) else {
         eprintln!("narsim: {path}: no choices");
         return 2;
     };
     let data: Vec<u32> = choices.iter().filter_map(|c| c.as_u64()).map(|c| c as u32).collect();
-    let mut ch = Choices::replay(data);
-    let mut out = run_once(kind, &mut ch, true);
-    if kind_s == "outcome-differs-from-fresh-process" {
-        if let Stats::S(s) = &out.stats {
-            match restart_check(&s.restart_queries, 0, usize::MAX) {
-                Ok((_, Some(v))) => out.violations.push(v),
-                Ok(_) => {}
-                Err(e) => {
-                    eprintln!("narsim: restart oracle: {e}");
-                    return 2;
-                }
-            }
+    // the simulator is deterministic; a tree under test that draws OS randomness or depends on
+    // addresses may need more than one attempt
+    let mut out = run_fresh_thread(kind, &data, true);
+    for _ in 0..2 {
+        if out.violations.iter().any(|v| v.prop == prop) {
+            break;
         }
+        out = run_fresh_thread(kind, &data, true);
     }
     for l in &out.log.lines {
         println!("  {l}");
